@@ -264,6 +264,11 @@ def _fc_answer(key: str, world: World, text_before: Optional[str]) -> EvaluatedF
         # building a new result every time
         ok = text_predicate(key, text_before)
         return _CONSTANT_ANSWERS.setdefault((key, ok), EvaluatedFormatConstraint(format_constraint_fulfilled=ok, error_message=None))
+    if world.fc_mode == "text-shared-objects":
+        # ... or with ONE object for "fulfilled" and ONE for "not fulfilled", whatever the key (return self._not_ok)
+        ok = text_predicate(key, text_before)
+        # (one pair of objects per World = per evaluator instance of one validation run)
+        return world.shared.setdefault(("shared answer", ok), EvaluatedFormatConstraint(format_constraint_fulfilled=ok, error_message=None))
     if world.fc_mode == "text":
         ok = text_predicate(key, text_before)
         return EvaluatedFormatConstraint(format_constraint_fulfilled=ok, error_message=None if ok else f"E{key}:{text_before!r}")
